@@ -182,6 +182,19 @@ theorem C14_clone_deep {E : Env} (hI : Idem E) (hC : CopyStable E) {src : Slot} 
       r.2.1 = (readSlot E oS n src).2.1 :=
   cloneSlot_deep_spec hI hC hw hc hk hm oS oD n all hd
 
+/-- **No sharing under a deep clone.**  For `clone_traits(copy=arg)` of any
+object in which every copied trait is copied deeply (`arg = 'deep'` and no
+`copy="ref"/"shallow"` metadata, or `copy="deep"` metadata with any `arg` -
+the case of `copy.deepcopy`) and holds no detached container (`DeepOK`): no
+container object of the clone is a container object of the source, old or
+materialised during the cloning. -/
+theorem C14_no_sharing_clone_deep {E : Env} (hI : Idem E) (hC : CopyStable E) (s : Obj) (o' n m : Nat)
+    (arg : Option CopyMode) (hmn : m ≤ n) (hb : BelowAll m s.slots)
+    (hd : ∀ sl ∈ s.slots, DeepOK E s.oid arg (copiesAll s.slots) sl) :
+    ∀ c ∈ (cloneTraits E s o' arg n).copy.slots, ∀ i ∈ slotIds c,
+      ∀ a ∈ (cloneTraits E s o' arg n).orig.slots, i ∉ slotIds a :=
+  (cloneL_no_sharing hI hC s.oid o' m arg (copiesAll s.slots) s.slots n hmn hb hd).2.2.2
+
 /-! ### Clauses the pinned tree does not satisfy -/
 
 /-- Full clause: `copy.deepcopy(obj)` shares no mutable container with `obj`. -/
